@@ -32,6 +32,9 @@ def scenarios():
     add('insane-input-save-temps', 'a.c', 'InsaneTestCaseError', predicate='exit 1', cfg={'save_temps': True})
     add('insane-input-script-without-shebang', 'a.c', 'InsaneTestCaseError', predicate='exit 1', script_shebang='')
     add('insane-input-script-interpreter-missing', 'test.sh', 'InsaneTestCaseError', predicate='exit 1', script_shebang='#!/nonexistent/interpreter')
+    # test-case names with characters that mean something to str.format / % / the shell: the message must still print and name them
+    for odd in ('a{0}.c', '{x}.c', 'a}.c', 'b%s.c', 'sub dir/c d.c', "q'uote.c"):
+        add(f'insane-input-odd-name:{odd}', odd, 'InsaneTestCaseError', predicate='exit 1', tree={odd: {'text': 'keep1\n'}, 'other.txt': {'text': 'o'}}, test_cases=[odd])
     # an unknown argument must be refused whatever the input looks like (also inputs on which the pass has nothing to do)
     texts = {'': 'keep1 (a ? b : c) 0x10;\nint x = {1};\n', ':plain-words': 'keep1\nplain words only\n', ':one-word': 'keep1\n',
              ':digits-only': 'keep1 1 2 3\n', ':blank-lines': 'keep1\n\n   \n'}
@@ -79,7 +82,56 @@ def judge(scen, obs):
     return None
 
 
+def cli_part(ctx, only=None):
+    """start-up misuse through the real front end (`cvise.py`), with an interestingness test given as --commands: the run is
+    refused and the working directory holds afterwards exactly what it held before (no stray script, no backup)"""
+    import os
+    import shutil
+    import tempfile
+    from pathlib import Path
+    import cliprobe
+    base = Path(tempfile.mkdtemp(prefix='c17cli-', dir=ctx.scratch))
+    stub = cliprobe.stub_dir(base)
+    cases = [('missing-test-case', ['nosuch.c']), ('second-test-case-missing', ['a.c', 'gone.c']), ('absolute-path', ['/etc/hostname']),
+             ('dotdot-path', ['../x.c']), ('commands-reject-the-input', ['a.c'])]
+    for name, tcs in cases:
+        if only and name != only:
+            continue
+        for how in ('commands', 'script'):
+            wd = base / f'wd-{name}-{how}'
+            wd.mkdir()
+            (wd / 'a.c').write_text('int keep1;\nint x;\n')
+            (wd / 'notes.txt').write_text('untouched\n')
+            (base / 'x.c').write_text('a\n')
+            tmpd = base / f'tmp-{name}-{how}'
+            tmpd.mkdir()
+            cmd = 'grep -q keep1 a.c' if name != 'commands-reject-the-input' else 'exit 1'
+            if how == 'commands':
+                args = ['--commands', cmd] + tcs
+            else:
+                (wd / 't.sh').write_text('#!/bin/sh\n' + cmd + '\n')
+                os.chmod(wd / 't.sh', 0o755)
+                args = ['t.sh'] + tcs
+            before = cliprobe.listing(wd)
+            rc, out, _ = cliprobe.run_cli(stub, ['--n', '2'] + args, wd, tmpdir=tmpd)
+            after = cliprobe.listing(wd)
+            ctx.count()
+            sc = {'kind': 'cli-misuse', 'case': name, 'how': how}
+            if before != after:
+                new = [e[0] for e in after if e not in before]
+                ctx.report('working-directory-changed-by-refused-run:cli', f'cvise.py {" ".join(args)}: the working directory changed: {new or "contents/modes differ"}; output tail: {out[-120:]!r}', sc)
+            elif 'Error' not in out and 'cannot' not in out and 'does not return zero' not in out:
+                ctx.report('misuse-accepted:cli', f'cvise.py {" ".join(args)} printed no refusal (exit {rc}): {out[-160:]!r}', sc)
+            else:
+                ctx.nontrivial(('cli-misuse', name, how))
+    shutil.rmtree(base, ignore_errors=True)
+
+
 def run(ctx):
+    if ctx.replay and json.load(open(ctx.replay)).get('kind') == 'cli-misuse':
+        cli_part(ctx, json.load(open(ctx.replay))['case'])
+        print('replayed ->', 'fails' if ctx.violations else 'holds')
+        return 1 if ctx.violations else 0
     if ctx.replay:
         scen = json.load(open(ctx.replay))['scenario']
         obs = W.run(ctx, scen)
@@ -103,6 +155,7 @@ def run(ctx):
             ctx.report(sig + ':' + scen['name'].split(':')[0], f"{scen['name']}: {obs['outcome']}: {(obs.get('error_text') or '')[:160]}", {'kind': 'misuse', 'scenario': scen})
         if len(ctx.cov['samples']) < 4:
             ctx.sample({'misuse': scen['name'], 'outcome': obs['outcome'], 'message': (obs.get('error_text') or '')[:120]})
+    cli_part(ctx)
     conclude(ctx, [], None)
     ctx.assumptions += ['unreadable / unwritable files are produced by running the real constructor in a child that drops to uid nobody (root would pass every access check)']
     return ctx.finish(obligations=OBLIGATIONS,
